@@ -409,6 +409,16 @@ def build_world_ll():
     return w
 
 
+class SortKey(Contract):
+    """the default sort key of sort_fields: the lower-cased name and nothing else"""
+    target = UT + ":default_field_sort_key"
+    modular = False
+    ensures = ("result == x.lower()",)
+
+    def setup(self, ex):
+        return {"x": fresh("str", "x")}
+
+
 def verify_ordering_machinery(ctx):
     """LinkedList and OrderedSet of debian._util under contract (shared by C09 and C10, whose order_* for paragraphs
     without duplicated fields delegate to OrderedSet.order_*)"""
@@ -428,6 +438,7 @@ def run_deductive(ctx):
     add.modular = True
     w3.add_contract(add)
     verify_contracts(ctx, w3, [OSExtend()], {})
+    verify_contracts(ctx, World(SpecLib()), [SortKey()], {})
     ctx.assumptions.append("the items of OrderedSet / LinkedList are modelled as opaque values with == and hashing only (mathematical "
                            "integers): the containers are generic in the item type")
     ctx.assumptions.append("weak references are dereferenced as the object itself: referents are assumed to be alive (nodes are "
